@@ -37,6 +37,9 @@ def check(run):
         run.guard("C14.via.C03.8.implicit-types", cfg, lambda: _C03.rule_implicit_types(b2, F, cfg))
         b3 = run.borrow("C05", only=r"removeparam", why="removeparam rules are never fused")
         run.guard("C14.via.C05.3.what-is-optimised", cfg, lambda: _C05.rule_what(b3, F, cfg))
+        from . import C04 as _C04
+        b4 = run.borrow("C04", only=r"removeparam|loop-runs", why="a removeparam rule must reach the removeparam list whatever else it carries")
+        run.guard("C14.via.C04.1.routing", cfg, lambda: _C04.rule_routing(b4, F, cfg))
 
 
 def rule_pieces(run, F, cfg):
